@@ -234,6 +234,15 @@ func (s *Server) followCheckSome(addr string, followc int, auth string,
 	if err != nil {
 		return 0, err
 	}
+	// the search compared only some of the blocks. Before any part of the own
+	// log is kept, compare all of it up to the resume position.
+	match, err = s.matchChecksums(conn, 0, pos)
+	if err != nil {
+		return 0, err
+	}
+	if !match {
+		return 0, s.followStartOver()
+	}
 	if pos == fullpos && pos == int64(s.aofsz) {
 		// nothing follows the matching part
 		if s.opts.ShowDebugMessages {
